@@ -228,6 +228,37 @@ def _run(V, work, tier):
                     V.add(None, "limit produced an internal panic instead of an ordinary error", {"src": src, "cfg": par})
         if len(V.coverage["samples"]) < 4 and kind != "limits" and par in (3, 7):
             V.sample({"program": src[-1][:300], kind: par, "model_value": str(mach.nm(model[cid][-1]["v"])), "real_steps": real[cid][-1]["steps"]})
+    # ---- 2b. a limit that is never reached changes nothing -----------------------------------------------------
+    # (C04: limits only truncate.)  Every program is run under each limit configuration, and again with ONE more limit
+    # added at a value no run can reach; the two real transcripts must be identical.  This is where limits interact:
+    # a tail-iteration bound must keep working when a logical-height bound is configured as well, and so on.
+    SLACK = {"maxlog": 10**9, "maxphys": 10**8, "maxtail": 10**9, "maxnest": 10**8, "maxmacro": 10**6, "maxsteps": 10**12}
+    W = {w[0]: w for w in P.WRAPPERS}
+    loops = [("tail-loop", [P.loop_program(rnd, [W["if-else"]], 40)]), ("mutual-tail-loop", [P.loop_program(rnd, [W["progn-last"], W["cond-clause"]], 25, mutual=True)]),
+             ("deep-rec", [P.loop_program(rnd, [W["arg-list"]], 30)])]
+    srec = []
+    for name, evals in progs_[: (len(progs_) if thorough else 14)] + loops:
+        srcs = [P.src(f) for f in evals]
+        for ci, lc in enumerate(LIMIT_CFGS + [{"maxtail": 10}, {"maxphys": 12}, {"maxlog": 9}, {"maxlog": 30}]):
+            srec.append({"id": "%s|%d|base" % (name, ci), "seq": srcs, "cfg": lc})
+            for k, v in SLACK.items():
+                if k not in lc:
+                    srec.append({"id": "%s|%d|%s" % (name, ci, k), "seq": srcs, "cfg": dict(lc, **{k: v})})
+    sres = {r["id"]: r["runs"][0]["evals"] for r in driver_json(binary, ["run"], srec, timeout=3000)}
+
+    def sig(evs):
+        return [(json.dumps(e["v"], sort_keys=True), json.dumps([p["tag"] for p in (e.get("probes") or [])], sort_keys=True), (e.get("err") or {}).get("cond"), (e.get("err") or {}).get("msg")) for e in evs]
+    nslack = 0
+    for r in srec:
+        name, ci, k = r["id"].split("|")
+        if k == "base":
+            continue
+        nslack += 1
+        if sig(sres[r["id"]]) != sig(sres["%s|%s|base" % (name, ci)]):
+            a, b = sig(sres["%s|%s|base" % (name, ci)]), sig(sres[r["id"]])
+            V.add(None, "adding the unreachable limit %s=%d to %r changes the outcome of %s" % (k, SLACK[k], r["cfg"], name),
+                  {"src": r["seq"], "cfg": r["cfg"], "without": str(a)[-600:], "with": str(b)[-600:]})
+    V.coverage["unreachable_limit_pairs"] = nslack
     V.coverage["relations_checked_on_real_runs"] = nrel
 
     # ---- 3. B2 traces ---------------------------------------------------------------
